@@ -69,6 +69,7 @@ func VerifH_C03_archiver_workers() {
 		s := models.NewItem("seed-1", &models.URL{Raw: "http://x.example/"}, "")
 		s.SetStatus(models.ItemCompleted) // skipped by the archiver, handed on as it is
 		in <- s
+		verifrt.Settle() // native replay: let the worker take the seed and reach the hand-off
 		stuck = outCap == 0
 		verifrt.Cover("seed-in-flight")
 	}
